@@ -30,9 +30,10 @@ type wireNet struct {
 	mtu    int
 	nodes  map[int]*wireNode
 	pool   []*wireMsg
-	prompt bool                  // forward every Tell immediately
-	route  func(m *wireMsg) bool // if set: decides per message whether to forward (true) or capture only
-	tag    string                // label for messages captured now
+	prompt bool                   // forward every Tell immediately
+	route  func(m *wireMsg) bool  // if set: decides per message whether to forward (true) or capture only
+	tag    string                 // label for messages captured now
+	fail   func(m *wireMsg) error // if set and it returns an error, Tell fails with it and the message is not captured
 }
 
 func newWireNet(mtu int) *wireNet {
@@ -121,6 +122,12 @@ func (w *wireNode) Tell(ctx context.Context, dst wireAddr, v p2p.IOVec) error {
 	}
 	m := &wireMsg{Src: w.addr, Dst: dst, Bytes: p2p.VecBytes(nil, v)}
 	w.net.mu.Lock()
+	if w.net.fail != nil {
+		if err := w.net.fail(m); err != nil {
+			w.net.mu.Unlock()
+			return err
+		}
+	}
 	m.Seq = len(w.net.pool)
 	m.Tag = w.net.tag
 	w.net.pool = append(w.net.pool, m)
